@@ -341,8 +341,8 @@ def check_structure(tree, what="tree"):
     order = []
 
     def rec(parent_obj, parent_node, depth):
-        if depth > 200:
-            raise Violation("C01", "structure", f"{what}: depth > 200 (cycle?)")
+        if depth > 600:
+            raise Violation("C01", "structure", f"{what}: depth > 600 (cycle?)")
         kids = real_children(parent_obj)
         ids = set()
         for c in kids:
@@ -409,7 +409,7 @@ def check_sibling_unique(tree, what="tree"):
     """C03 invariant: no parent (root included) has two children with one data_id."""
 
     def rec(obj, depth):
-        if depth > 200:
+        if depth > 600:
             return
         seen = set()
         kids = real_children(obj)
